@@ -25,6 +25,16 @@ TEXT = {
               "The same history runs on a nearly-full allocator and an unlimited twin; per-operation success/failure, error kind, cap invariant and no-change-on-failure are asserted; programs and back-reference decoders are swept over every headroom value around their need."),
     "C14": _t("content-model monitor over allocator histories + exhaustive enumeration of short byte strings and integer ranges",
               "All live nodes are re-read after every restore/failed op; atom_eq, small_number, number and the four integer constructors are checked against independent encoders, exhaustively for short inputs."),
+    "C15": _t("reference-model monitor (independent serialiser + model tree) with boundary-directed atoms up to 128 MiB",
+              "Every generated tree is serialised by the real code and compared byte-for-byte with an independent serialiser, decoded back, and the four length/canonicity functions are checked; the converse direction is checked on mutated inputs."),
+    "C16": _t("three-way differential decoder monitor + model tree hash + allocation meter; exhaustive short inputs; ASan/Miri layers",
+              "All byte strings up to a length bound are enumerated and then structured/noisy inputs generated; the three classic decoders must agree on acceptance, consumed length, tree and hashes, never panic or over-allocate, and the canonical verdict must match its definition."),
+    "C17": _t("reference-model monitor on back-reference serialisation under forced hash salts",
+              "Generated trees are serialised with back-references, decoded, re-serialised and compared with the model tree, the classic length and the outputs under 8 forced hash salts."),
+    "C18": _t("differential monitor: current vs legacy back-reference decoder vs length probe; exhaustive dense-alphabet inputs; dbg/ASan/Miri layers",
+              "Each input is decoded by both back-reference decoders on fresh allocators and probed by serialized_length_from_bytes; acceptance, trees, pair counts and consumed length must agree."),
+    "C29": _t("exact limit sweep monitor (every limit for small trees, every token boundary for large ones)",
+              "Both size-limited serialisers are run at every limit around every token boundary and must either return the full serialisation or fail with OutOfMemory."),
     "C25": _t("totality monitor (catch_unwind, InternalError detector) under release, debug-assertion, AddressSanitizer and Miri builds",
               "Hostile programs and arbitrary operator argument trees are executed under four build variants; any panic, abort, sanitizer report, dying process or InternalError is a violation.",
               "Trusted: harness generators. ASan/Miri cannot see into blst (C/asm); Miri runs a small no-BLS subset. Hangs are inconclusive."),
